@@ -468,6 +468,9 @@ func genRequest(r *Rng, routes []genRoute) *Req {
 		}
 		q.Path = "/" + strings.Join(segs, "/")
 	}
+	if n := strings.Count(q.Path, "/"); n >= 2 && r.Pct(4) {
+		q.EncSlash = 1 + r.Intn(n-1) // one separator arrives as %2F: URL.Path is unchanged, URL.RawPath differs
+	}
 	if q.Get("Content-Type") == "" && r.Pct(40) {
 		if ct := r.Pick(ctPool); ct != "" {
 			q.Set("Content-Type", ct)
@@ -748,9 +751,18 @@ func runRoute(raw Sx) (Sx, Sx) {
 	pr := &probe{}
 	c, kept, _ := buildContainer(t, pr)
 	obs := dispatchObs(c, pr, q)
+	// the same request on the same container with trace logging flipped: the same answer (C19)
+	restful.EnableTracing(!trace)
+	*pr = probe{}
+	obs2 := dispatchObs(c, pr, q)
+	restful.EnableTracing(trace)
+	same := 0
+	if SxString(obs) == SxString(obs2) {
+		same = 1
+	}
 	o := NewOracles()
 	tabulateRouting(o, kept, q.Path)
-	return L(o.Sx(), kept.Sx(), q.Sx(), B(trace)), obs
+	return L(o.Sx(), kept.Sx(), q.Sx(), B(trace)), append(append(Ls{}, sxList(obs)...), same)
 }
 
 func init() { domains["route"] = domain{gen: genRoute_, run: runRoute} }
